@@ -125,6 +125,8 @@ type opSpec struct {
 	Chg   []chgSpec  `json:"chg,omitempty"`
 	Path  []string   `json:"path,omitempty"`
 	C     string     `json:"c,omitempty"`
+	How   string     `json:"how,omitempty"`   // Restart: "shutdown" | "drop"
+	Plant string     `json:"plant,omitempty"` // Restart: "keep" | "file" | "empty"
 }
 
 type caseSpec struct {
@@ -286,6 +288,8 @@ type world struct {
 	sigs     []*rsync.Signature // their base signatures
 	pendReq  map[string][]byte  // path -> planned content (bytes) for pending paths
 	hung     bool
+	cfg      *synchronization.Configuration
+	alpha    bool
 	skip     string // top-level name inside the root that is the (internal) staging directory
 }
 
@@ -357,12 +361,56 @@ func newWorldOpts(c *vlib.Ctx, alpha bool, mode string, max int, symlinks core.S
 	if max != Unlimited {
 		cfg.MaximumEntryCount = uint64(max)
 	}
+	w.cfg, w.alpha = cfg, alpha
 	ep, err := local.NewEndpoint(nil, w.root, w.sid, synchronization.Version_Version1, cfg, alpha)
 	if err != nil {
 		return nil, err
 	}
 	w.ep = ep
 	return w, nil
+}
+
+// restart replaces the endpoint object by a new one for the same session (same
+// session identifier, root, data directory, configuration), as after a crash,
+// a daemon restart or a lost connection. how: "shutdown" (orderly) or "drop"
+// (the old object is simply abandoned). plant: "keep" the leftover staging root,
+// replace it by a "file", or leave an "empty" directory.
+func (w *world) restart(how, plant string) error {
+	if how == "shutdown" {
+		old := w.ep
+		w.guard(func() { old.Shutdown() })
+	}
+	w.receiver, w.pending, w.sigs, w.pendReq = nil, nil, nil, nil
+	switch plant {
+	case "file":
+		os.RemoveAll(w.staging)
+		if err := os.WriteFile(w.staging, []byte("not a directory"), 0o600); err != nil {
+			return err
+		}
+	case "empty":
+		os.RemoveAll(w.staging)
+		if err := os.Mkdir(w.staging, 0o700); err != nil {
+			return err
+		}
+	}
+	ep, err := local.NewEndpoint(nil, w.root, w.sid, synchronization.Version_Version1, w.cfg, w.alpha)
+	if err != nil {
+		return err
+	}
+	w.ep = ep
+	return nil
+}
+
+// stagingRootKind is what the walker finds at the staging root path.
+func (w *world) stagingRootKind() string {
+	info, err := os.Lstat(w.staging)
+	switch {
+	case err != nil:
+		return "none"
+	case info.IsDir():
+		return "dir"
+	}
+	return "file"
 }
 
 func (w *world) close() {
@@ -470,6 +518,7 @@ func (w *world) doStageFault(rec map[string]any, paths []string, digests [][]byt
 		reqEnc = append(reqEnc, map[string]any{"path": splitPath(p), "d": hex.EncodeToString(digests[i]), "sz": len(planned[p])})
 	}
 	rec["req"] = reqEnc
+	rec["sroot"] = w.stagingRootKind()
 	rec["disk0"] = w.disk()
 	rec["store0"] = w.store()
 	// the real Stage filters its argument in place: hand it copies
@@ -778,6 +827,21 @@ func runCase(c *vlib.Ctx, cid string, cs *caseSpec) {
 			if rec["err"] == "" {
 				interesting = true
 			}
+		case "Restart":
+			how, plant := op.How, op.Plant
+			if how == "" {
+				how = "shutdown"
+			}
+			if plant == "" {
+				plant = "keep"
+			}
+			rec["how"], rec["plant"] = how, plant
+			if err := w.restart(how, plant); err != nil {
+				vlib.Fatal("restart: %v", err)
+			}
+			rec["sroot"] = w.stagingRootKind()
+			rec["disk1"] = w.disk()
+			rec["store1"] = w.store()
 		case "ExtWrite":
 			p := joinPath(op.Path)
 			w.addPath(p)
